@@ -1038,10 +1038,6 @@ class H2Stream:
         Receive a set of headers (or trailers).
         """
         if is_informational_response(headers):
-            if end_stream:
-                raise ProtocolError(
-                    "Cannot set END_STREAM on informational responses"
-                )
             input_ = StreamInputs.RECV_INFORMATIONAL_HEADERS
         else:
             input_ = StreamInputs.RECV_HEADERS
@@ -1049,6 +1045,11 @@ class H2Stream:
         events = self.state_machine.process_input(input_)
 
         if end_stream:
+            if input_ == StreamInputs.RECV_INFORMATIONAL_HEADERS:
+                raise ProtocolError(
+                    "Cannot set END_STREAM on informational responses"
+                )
+
             es_events = self.state_machine.process_input(
                 StreamInputs.RECV_END_STREAM
             )
